@@ -622,6 +622,12 @@ def compare(interp, op, a, b, node=None):
         if t is ast.NotIn:
             r = (not r) if isinstance(r, bool) else SBool(z3.Not(r.t))
         return r
+    # objects seen through a comparison contract (modular: contracts/lib_order.CmpObj)
+    if hasattr(a, 'py_compare'):
+        return a.py_compare(interp, t, b, False)
+    if hasattr(b, 'py_compare'):
+        return b.py_compare(interp, {ast.Lt: ast.Gt, ast.Gt: ast.Lt, ast.LtE: ast.GtE, ast.GtE: ast.LtE}.get(t, t), a, False) \
+            if False else b.py_compare(interp, t, a, True)
     # rich comparison dispatch on interpreted classes (T3)
     if isinstance(a, Instance) and a.cls.find(REFLECT[t][0]):
         return interp.call(BoundMethod(a.cls.find(REFLECT[t][0])[0], a), [b], {})
@@ -1581,7 +1587,19 @@ def _islice(interp, args, kw, node):
     raise Unsupported('islice (handled by the sidecar summary where contracted)')
 
 
+def _opfn(astop):
+    return Builtin('operator.' + astop.__name__, lambda interp, args, kw, node: compare(interp, astop(), args[0], args[1], node))
+
+
+def _contains_fn(interp, args, kw, node):
+    return contains(interp, args[0], args[1], node)
+
+
 EXTERNAL = {
+    ('operator', 'lt'): _opfn(ast.Lt), ('operator', 'le'): _opfn(ast.LtE), ('operator', 'gt'): _opfn(ast.Gt),
+    ('operator', 'ge'): _opfn(ast.GtE), ('operator', 'eq'): _opfn(ast.Eq), ('operator', 'ne'): _opfn(ast.NotEq),
+    ('operator', 'is_'): _opfn(ast.Is), ('operator', 'is_not'): _opfn(ast.IsNot),
+    ('operator', 'contains'): Builtin('operator.contains', _contains_fn),
     ('operator', 'itemgetter'): BUILTINS['itemgetter'], ('operator', 'attrgetter'): BUILTINS['attrgetter'],
     ('functools', 'partial'): BUILTINS['partial'], ('itertools', 'chain'): BUILTINS['chain'],
     ('itertools', 'count'): BUILTINS['count'], ('itertools', 'zip_longest'): BUILTINS['zip_longest'],
